@@ -403,7 +403,9 @@ def impl_session(case, read_timeout):
         # histories over several store objects get bucket names of their own (and fresh ones for the confirmation re-run):
         # a cache that outlives its store object cannot leak into - or out of - such a history, so a reported history
         # fails on its own in a fresh process too
-        names = tuple('m%s%s_%d' % (case.get('serial', 0), 'r' if read_timeout > 1.0 else '', i) for i in range(len(BUCKET_NAMES)))
+        # the second name extends the first (a cache looked up by prefix / substring would let one vouch for the other)
+        base = 'm%s%s' % (case.get('serial', 0), 'r' if read_timeout > 1.0 else '')
+        names = (base + '_0', base + '_0x', base + '_1')
     norm = {n.replace('_', '-'): i for i, n in enumerate(names)}
     for o in case['ops']:
         store = objs[o.get('store', 0)]
